@@ -230,7 +230,7 @@ fn construct(c: &mut Case) {
 fn main() {
     runner::main(Spec {
         property: "C03",
-        rule: "a case is a random program of 1..8 operations (structural, element-wise, reductions, statistics, shape-contract probes; operands drawn compatible 75% / arbitrary 25%) over a register file of 2..4 matrices (shapes 1..12, incl. 1xN, Nx1, 1x1) and 2..3 vectors with nine value kinds (small ints, normal, all-negative, all-positive, all-equal, large 1e150/1e15, common offset up to 1e8/1e3, mixed magnitude, 0/1), f64 or f32; executed step by step on DenseMatrix/Vec and on the row-major reference model, all results compared after every step; non-trivial = at least one step was compared against the model or correctly rejected; distinct = hash of registers + program",
+        rule: "a case is a random program of 1..8 operations (structural, element-wise, reductions, statistics, shape-contract probes; operands drawn compatible 75% / arbitrary 25%) over a register file of 2..4 matrices (shapes 1..12, incl. 1xN, Nx1, 1x1) and 2..3 vectors with nine value kinds (small ints, normal, all-negative, all-positive, all-equal, large 1e150/1e15, common offset up to 1e8/1e3, mixed magnitude, 0/1), f64 or f32; executed step by step on DenseMatrix/Vec and on the row-major reference model, all results compared after every step; non-trivial = at least one step was compared against the model or correctly rejected; distinct = hash of registers + program; program_large: programs over shapes up to 48x48 and long thin operands of 1025..1500 entries; copy_row_as_vec / copy_col_as_vec receivers are 0, 1 or 3 entries longer than needed",
         assumptions: vec![
             "population normaliser (n) for var/std, sample normaliser (n-1) for cov — as fixed by the crate's own tests/docs",
             "var/std accuracy is demanded relative to the spread (1e-6 f64 / 1e-2 f32) for |mean|/spread up to 1e8 (f64) / 1e3 (f32)",
@@ -240,7 +240,7 @@ fn main() {
         families: vec![
             Family::new("program", 40000, 800000, program),
             Family::new("program_small", 20000, 400000, program_small),
-            Family::new("program_large", 1500, 30000, program_large),
+            Family::new("program_large", 800, 6000, program_large),
             Family::new("construct", 3000, 60000, construct),
         ],
         min_nontrivial: 8000,
